@@ -2,8 +2,9 @@
 
 generated: interleavings of directive / comment / blank / feature lines, 0-14 features before each
 directive (below and above the inspection window), with and without a `##FASTA` / `>` tail; supplied as a
-path and as a string (from_string=True); checklines varied around every directive position; dialect
-inferred (peek) or supplied (no peek).
+path, as a gzip path (a .gz path is a path: opened in binary mode, no newline translation) and as a string
+(from_string=True); LF and CRLF line ends in every form; checklines varied around every directive position;
+dialect inferred (peek) or supplied (no peek).
 
 oracle (real code only, written from the property text): classify every line by hand; compare with
   * DataIterator.directives after a full iteration and the features it yields,
@@ -13,10 +14,17 @@ correspondence: `file` (GffModel.Iter.runFile: dialect, directives, features), `
 createDbDirectives: the directive list as a shared Python list object, both variants of `_custom_iter` L127:
 the implementation must agree with ONE of them on every case - which one is written into the evidence) and
 `classify` (every string up to length 3 over {# > x space tab} plus FASTA look-alikes, observed through the
-real iterator).
+real iterator on a plain LF file and on a gzip CRLF file; judged by the oracle alike).
+directed(): (a) correspondence only - files without any feature line (empty, blank, comments / directives only,
+FASTA only) in all forms: DataIterator vs `file`, create_db vs `create` (same error kind, EmptyInputError);
+(b) a database imported from a file WITH directives is updated (inputs with and without ## lines, empty, FASTA
+first) and reopened after every update: db.directives vs the model (`create`/`update`/`reopen`/`dump`); the oracle
+judges only what C14 states - the directives of the original import are all still there, in order.
 """
+import gzip
 import itertools
 import os
+import warnings
 
 import common
 import pyside
@@ -30,6 +38,7 @@ TRUSTED = [
 ]
 LEANCHECKER_MODULES = ["GffProofs.Props.C14"]
 
+FORMS = ("path", "gz", "string")
 GFF3_ATTR = "ID=%s;Name=n%d"
 GTF_ATTR = 'gene_id "g%d"; transcript_id "t%d";'
 
@@ -105,12 +114,16 @@ def gen_case(r, thorough):
     return fmt, lines, cls, bool(tail)
 
 
-def write_text(ctx, name, lines, crlf=False, final_newline=True):
+def write_text(ctx, name, lines, crlf=False, final_newline=True, gz=False):
+    """writes the lines with the given line ends, byte for byte; gz=True: also <path>.gz with the same bytes"""
     nl = "\r\n" if crlf else "\n"
     text = nl.join(lines) + (nl if final_newline and lines else "")
     path = os.path.join(ctx.scratch, name)
     with open(path, "w", encoding="utf-8", newline="") as fh:
         fh.write(text)
+    if gz:
+        with gzip.open(path + ".gz", "wb") as fh:
+            fh.write(text.encode("utf-8"))
     return path, text
 
 
@@ -118,8 +131,8 @@ def observe(ctx, lines, cl, form, supplied, tag, crlf=False, final_newline=True)
     """run the real code; returns a dict of observables"""
     import gffutils
     from gffutils import iterators
-    path, text = write_text(ctx, "c14_%s.gff" % tag, lines, crlf, final_newline)
-    data = path if form == "path" else text
+    path, text = write_text(ctx, "c14_%s.gff" % tag, lines, crlf, final_newline, gz=(form == "gz"))
+    data = {"path": path, "gz": path + ".gz", "string": text}[form]
     kw = dict(checklines=cl, from_string=(form == "string"))
     if supplied is not None:
         kw["dialect"] = dict(supplied, order=list(supplied["order"]))
@@ -147,11 +160,13 @@ def observe(ctx, lines, cl, form, supplied, tag, crlf=False, final_newline=True)
     return out
 
 
-def judge(lines, cl, form, supplied, obs):
-    """the property, by hand.  returns list of (what, details)"""
+def judge(lines, cl, form, supplied, obs, crlf=False, final_newline=True):
+    """the property, by hand.  returns list of (what, details).  The line ends of the file (crlf, final_newline) are
+    part of the case but not of the judgement: a line is what precedes its line end"""
     dirs, feats = hand_classify(lines)
     bad = []
-    inp = {"lines": lines, "checklines": cl, "form": form, "dialect_supplied": supplied is not None}
+    inp = {"lines": lines, "checklines": cl, "form": form, "dialect_supplied": supplied is not None,
+           "crlf": crlf, "final_newline": final_newline}
     if "it_error" in obs:
         bad.append(("DataIterator raised on a well-formed annotation: " + obs["it_error"], inp))
     else:
@@ -186,12 +201,17 @@ def judge(lines, cl, form, supplied, obs):
     return bad
 
 
-def shrink(ctx, lines, cl, form, supplied):
-    """greedy line deletion keeping the oracle failing (same first message class)"""
-    def fails(ls):
-        if not hand_classify(ls)[1]:
+def shrink(ctx, lines, cl, form, supplied, crlf=False, final_newline=True):
+    """greedy line deletion keeping the oracle failing, inside the domain: a candidate must still have a feature line
+    and every line the property counts as a feature must be a nine-column line (deleting the `>` header of a FASTA
+    tail would turn the sequence lines into "features")"""
+    def fails(ls, c=None):
+        feats = hand_classify(ls)[1]
+        if not feats or any(l.count("\t") != 8 for l in feats):
             return False
-        return bool(judge(ls, cl, form, supplied, observe(ctx, ls, cl, form, supplied, "shrink")))
+        c = cl if c is None else c
+        return bool(judge(ls, c, form, supplied, observe(ctx, ls, c, form, supplied, "shrink", crlf, final_newline),
+                          crlf, final_newline))
     cur = list(lines)
     changed = True
     while changed and len(cur) > 1:
@@ -202,17 +222,23 @@ def shrink(ctx, lines, cl, form, supplied):
                 cur = cand
                 changed = True
                 break
-    while cl > 0 and fails(cur) and judge(cur, cl - 1, form, supplied,
-                                           observe(ctx, cur, cl - 1, form, supplied, "shrink")):
+    while cl > 0 and fails(cur) and fails(cur, cl - 1):
         cl -= 1
     return cur, cl
 
 
-def classify_real(ctx, s, k):
-    """observe the class of line `s` through the real iterator"""
+CLASSIFY_MODES = {"path-lf": (False, False), "gz-crlf": (True, True), "path-crlf": (False, True), "gz-lf": (True, False)}
+
+
+def classify_real(ctx, s, k, mode="path-lf"):
+    """observe the class of line `s` through the real iterator; mode: how the three-line file is stored (plain or
+    gzip path, LF or CRLF line ends)"""
     from gffutils import iterators
     probe = "chr1\tsrc\tgene\t1\t2\t.\t+\t.\tID=p;Name=p"
-    path, _ = write_text(ctx, "c14_cls.gff", [s, "##MARK", probe])
+    gz, crlf = CLASSIFY_MODES[mode]
+    path, _ = write_text(ctx, "c14_cls.gff", [s, "##MARK", probe], crlf=crlf, gz=gz)
+    if gz:
+        path += ".gz"
     try:
         it = iterators.DataIterator(path, dialect=pyside.mk_dialect(order=["ID", "Name"]))
         n = 0
@@ -235,13 +261,172 @@ def classify_real(ctx, s, k):
     return "unclear %r %d" % (d, n)
 
 
+def is_subsequence(small, big):
+    it = iter(big)
+    return all(any(x == y for y in it) for x in small)
+
+
+def run_history(ctx, lines, cl, updates, tag, crlf=False, final_newline=True):
+    """create_db(path of `lines`) into a file database, then db.update(path of u) for every u of `updates`, the
+    database being reopened after every step.  -> (observations, protocol commands, expected replies, labels)"""
+    import gffutils
+    import dbside
+    cfg = dbside.Cfg(strategy="create_unique")
+    path, _ = write_text(ctx, "c14_%s.gff" % tag, lines, crlf, final_newline)
+    dbfn = os.path.join(ctx.scratch, "c14_%s.db" % tag)
+    db, reply = dbside.py_create(path, cfg, dbfn=dbfn, checklines=cl)
+    obs = {"create": reply, "steps": []}
+    cmds, exp, labels = [dbside.cmd_create(lines, cfg, checklines=cl)], [reply], ["create_db"]
+    if db is None:
+        return obs, cmds, exp, labels
+    obs["after_import"] = list(gffutils.FeatureDB(dbfn).directives)
+    for ui, u in enumerate(updates):
+        upath, _ = write_text(ctx, "c14_%s_u.gff" % tag, u, crlf, final_newline)
+        try:
+            with warnings.catch_warnings():
+                warnings.simplefilter("ignore")
+                db.update(upath, make_backup=False, checklines=cl, **cfg.update_kwargs())
+            got = "ok"
+        except Exception as ex:
+            got = "err " + pyside.err_name(ex)
+        cmds.append(dbside.cmd_update(u, cfg, checklines=cl)); exp.append(got); labels.append("update %d" % ui)
+        try:
+            live = list(db.directives)
+            db = gffutils.FeatureDB(dbfn)
+            reopened = list(db.directives)
+        except Exception as ex:
+            obs["steps"].append({"update": got, "reopen_error": pyside.err_name(ex)})
+            break
+        obs["steps"].append({"update": got, "live": live, "reopened": reopened})
+        cmds.append("reopen"); exp.append("ok"); labels.append("reopen after update %d" % ui)
+        cmds.append("dump"); exp.append(pyside.enc_list(reopened)); labels.append("db.directives after update %d + reopen" % ui)
+        if got != "ok":
+            break
+    return obs, cmds, exp, labels
+
+
+def judge_history(lines, cl, updates, obs, crlf=False, final_newline=True):
+    """what C14 says about a database that was updated afterwards: the ## lines of the ORIGINAL import are in
+    db.directives after reopening, all of them and in file order (what an update does with the ## lines of ITS input
+    is not stated - compared with the model only)"""
+    dirs, feats = hand_classify(lines)
+    inp = {"lines": lines, "checklines": cl, "form": "path", "updates": updates, "crlf": crlf,
+           "final_newline": final_newline, "dialect_supplied": False}
+    bad = []
+    if "after_import" not in obs:
+        return [("create_db raised on a well-formed annotation: " + obs["create"], inp)]
+    if obs["after_import"] != dirs:
+        bad.append(("FeatureDB(path).directives after reopening is not the list of ## lines before the FASTA section, in "
+                    "order", dict(inp, expected=dirs, got=obs["after_import"])))
+    for i, st in enumerate(obs["steps"]):
+        if "reopened" in st and not is_subsequence(dirs, st["reopened"]):
+            bad.append(("after db.update() number %d and reopening, db.directives no longer holds every directive of the "
+                        "original import in order" % (i + 1), dict(inp, expected_kept=dirs, got=st["reopened"], step=i)))
+            break
+    return bad
+
+
+def directed(ctx, res):
+    """inputs the generator of run() excludes, found by mutating the model.  (a) files WITHOUT any feature line: only
+    compared with the model (DataIterator: `file`; create_db: `create`, the same error kind - EmptyInputError).
+    (b) a database whose original import had directives is updated (input with / without ## lines) and reopened:
+    db.directives against the model (`create`/`update`/`reopen`/`dump`), and judged by judge_history."""
+    import gffutils
+    import dbside
+    from gffutils import iterators
+    r = ctx.rng("c14-directed")
+    cmds, exp, tags = [], [], []
+    # (a) ---------------------------------------------------------------------------------------------------------
+    f0 = feature_line("gff3", 0)
+    empties = [[], [""], ["#c"], ["##gff-version 3"], ["##gff-version 3", "#c", "", "##second"], ["", "##d1", "", "##d2", "#"],
+               ["##d", "##FASTA", ">x", "ACGT", f0], [">x", f0, "##late"], ["##FASTA"], ["#c", ">", "##d"]]
+    cfg = dbside.Cfg(strategy="create_unique")
+    for lines in empties:
+        for cl in (0, 1, 10):
+            for crlf in (False, True):
+                for form in FORMS:
+                    path, text = write_text(ctx, "c14_emp.gff", lines, crlf, True, gz=(form == "gz"))
+                    data = {"path": path, "gz": path + ".gz", "string": text}[form]
+                    kw = dict(checklines=cl, from_string=(form == "string"))
+                    try:
+                        it = iterators.DataIterator(data, **kw)
+                        fs = list(it)
+                        got = "ok %s %s %d %s" % (pyside.enc_dialect(it.dialect), pyside.enc_list(it.directives), len(fs),
+                                                  " / ".join(pyside.enc_feature(f) for f in fs) if fs else "_")
+                    except Exception as ex:
+                        got = "err " + pyside.err_name(ex)
+                    cmds.append("file %d none none %s" % (cl, pyside.enc_list(lines))); exp.append(got)
+                    tags.append(("DataIterator(%s) on a file without features" % form, repr((lines, cl, crlf))))
+                    try:
+                        db = gffutils.create_db(data, os.path.join(ctx.scratch, "c14_emp.db"), force=True,
+                                                merge_strategy="create_unique", verbose=False, **kw)
+                        got = "ok " + pyside.enc_dialect(db.dialect)
+                    except Exception as ex:
+                        got = "err " + pyside.err_name(ex)
+                    res.count("corr_only_create_db_without_features_" + got.replace(" ", "_")[:24])
+                    cmds.append(dbside.cmd_create(lines, cfg, checklines=cl)); exp.append(got)
+                    tags.append(("create_db(%s) on a file without features" % form, repr((lines, cl, crlf))))
+    # (b) ---------------------------------------------------------------------------------------------------------
+    nh = 8 if not ctx.thorough else 60
+    done = 0
+    while done < nh:
+        fmt, lines, cls, has_tail = gen_case(r, False)
+        dirs, feats = hand_classify(lines)
+        if not feats or not dirs:
+            continue
+        done += 1
+        cl = r.choice(cls)
+        crlf = r.random() < 0.25
+        updates = []
+        nf = 100
+        for _ in range(r.choice([1, 1, 2, 3])):
+            kind = r.choice(["features", "features", "with_directives", "with_directives", "directives_only", "empty",
+                             "generated", "fasta_first"])
+            fl = [feature_line(fmt, nf + j) for j in range(r.choice([1, 2, 3, 12]))]
+            nf += len(fl)
+            if kind == "features":
+                u = fl
+            elif kind == "with_directives":
+                u = ["##upd-%d" % nf] + fl[:1] + [r.choice(DIRECTIVES)] + fl[1:] + ["##upd-late"]
+            elif kind == "directives_only":
+                u = ["##upd-only", "#c"]
+            elif kind == "empty":
+                u = []
+            elif kind == "fasta_first":
+                u = ["##upd-before-fasta", "##FASTA"] + fl
+            else:
+                u = gen_case(r, False)[1] if fmt == "gff3" else fl + ["##gen"]
+            res.count("update_input_" + kind)
+            updates.append(u)
+        obs, hc, he, hl = run_history(ctx, lines, cl, updates, "hist", crlf)
+        res.evaluations += 1
+        res.nontriv((tuple(lines), cl, "update-history", tuple(tuple(u) for u in updates)))
+        for what, inp in judge_history(lines, cl, updates, obs, crlf):
+            res.oracle_failures.append((what, inp))
+        if len(res.samples) < 6 and done <= 2:
+            res.sample({"lines": lines, "checklines": cl, "updates": updates,
+                        "db.directives after each update + reopen": [st.get("reopened") for st in obs["steps"]]})
+        cmds += hc
+        exp += he
+        tags += [(l, repr((lines, cl, updates))) for l in hl]
+    out = ctx.model(cmds)
+    if out is not None:
+        for c, m, e, (comp, inp) in zip(cmds, out, exp, tags):
+            if c == "dump":
+                m = dbside.parse_dump(m).get("directives", m)
+            res.corr_checked += 1
+            if m != e:
+                res.corr_disagreements.append((comp, inp[:600], m[:700], e[:700]))
+
+
 def run(ctx):
     res = common.Result("C14")
     r = ctx.rng("c14")
     res.rule = ("files of 1-4 directives with 0-14 feature lines before each (comments and blanks sprinkled), optional "
-                "FASTA tail (##FASTA or bare > header, followed by directive- and feature-looking lines); path and "
-                "from_string; checklines = every directive position -2..+1, 0, 1, 2, 10, n, n+2; dialect inferred or "
-                "supplied. non-trivial = distinct (lines, checklines, form, supplied) with at least one directive "
+                "FASTA tail (##FASTA or bare > header, followed by directive- and feature-looking lines); path, gzip "
+                "path and from_string, LF and CRLF line ends; checklines = every directive position -2..+1, 0, 1, 2, "
+                "10, n, n+2; dialect inferred or supplied; plus histories create_db + 1-3 db.update() + reopen on files "
+                "with directives. non-trivial = distinct (lines, checklines, form, supplied) with at least one directive "
                 "placed after the first feature or a FASTA tail")
     ncases = 45 if not ctx.thorough else 350
     cmds, exp, tags = [], [], []
@@ -252,13 +437,17 @@ def run(ctx):
         dirs, feats = hand_classify(lines)
         if not feats:
             continue
-        crlf = r.random() < 0.15
+        crlf = (r.random() < 0.15) or ci % 4 == 3        # CRLF files: a random share plus every fourth case
         final_nl = r.random() < 0.85
+        res.count("line_ends_crlf" if crlf else "line_ends_lf")
         res.count("fmt_" + fmt)
         res.count("with_fasta_tail" if has_tail else "without_fasta_tail")
         ref_dialect = None
+        gz_cls = set(cls[::2])
         for cl in cls:
-            for form in ("path", "string"):
+            for form in FORMS:
+                if form == "gz" and ctx.thorough and not crlf and cl not in gz_cls:
+                    continue        # thorough tier: LF gzip files on every other checklines value (time)
                 for supplied_flag in ((False, True) if (cl == cls[0]) else (False,)):
                     supplied = None
                     if supplied_flag:
@@ -267,6 +456,7 @@ def run(ctx):
                         supplied = ref_dialect
                     tag = "%d" % (ci % 4)
                     obs = observe(ctx, lines, cl, form, supplied, tag, crlf, final_nl)
+                    res.count("form_%s_%s" % (form, "crlf" if crlf else "lf"))
                     if ref_dialect is None and "it_dialect" in obs:
                         ref_dialect = obs["it_dialect"]
                     res.evaluations += 1
@@ -283,10 +473,10 @@ def run(ctx):
                             res.count("directive_inside_window" if seen_f <= cl else "directive_after_window")
                         elif l and not l.startswith("#"):
                             seen_f += 1
-                    bad = judge(lines, cl, form, supplied, obs)
+                    bad = judge(lines, cl, form, supplied, obs, crlf, final_nl)
                     for what, inp in bad:
                         if first_fail is None:
-                            first_fail = (what, inp, (lines, cl, form, supplied))
+                            first_fail = (what, inp, (lines, cl, form, supplied, crlf, final_nl))
                         res.oracle_failures.append((what, inp))
                     if len(res.samples) < 4 and (late or has_tail):
                         res.sample({"lines": lines, "checklines": cl, "form": form,
@@ -312,11 +502,11 @@ def run(ctx):
 
     # shrink the first failure into the replay payload ---------------------------------------------
     if first_fail is not None:
-        what, inp, (lines, cl, form, supplied) = first_fail
+        what, inp, (lines, cl, form, supplied, crlf, final_nl) = first_fail
         try:
-            small, scl = shrink(ctx, lines, cl, form, supplied)
-            obs = observe(ctx, small, scl, form, supplied, "min")
-            bad = judge(small, scl, form, supplied, obs)
+            small, scl = shrink(ctx, lines, cl, form, supplied, crlf, final_nl)
+            obs = observe(ctx, small, scl, form, supplied, "min", crlf, final_nl)
+            bad = judge(small, scl, form, supplied, obs, crlf, final_nl)
             if bad:
                 w, i = bad[0]
                 i = dict(i, shrunk_from_lines=len(lines))
@@ -332,10 +522,12 @@ def run(ctx):
     strings += ["##FASTA", "##FASTA ", " ##FASTA", "##fasta", "#FASTA", "##FASTAX", "###FASTA", ">chr1", " >chr1",
                 "x>y", "##>", "#>", ">#", "##", "###", "# #", "##é", "é", "chr1\tsrc\tgene\t1\t2\t.\t+\t.\tID=a"]
     strings += list(DIRECTIVES) + list(COMMENTS)
-    for s in strings:
-        got = classify_real(ctx, s, 0)
+    modes = ["path-lf", "gz-crlf"] + (["path-crlf", "gz-lf"] if ctx.thorough else [])
+    for s, mode in [(s, m) for m in modes for s in strings]:
+        got = classify_real(ctx, s, 0, mode)
         if got is None:
             continue
+        res.count("classify_" + mode)
         # oracle on the real classification (property text)
         if s == "##FASTA" or s.startswith(">"):
             want = "fasta"
@@ -347,11 +539,12 @@ def run(ctx):
             want = "feature"
         res.evaluations += 1
         if got != want:
-            res.oracle_failures.append(("a single line is not classified as the property says",
-                                        {"line": s, "expected": want, "observed": got}))
+            res.oracle_failures.append(("a single line is not classified as the property says"
+                                        + ("" if mode == "path-lf" else " (file stored as %s)" % mode),
+                                        {"line": s, "expected": want, "observed": got, "mode": mode}))
         cmds.append("classify " + enc(s))
         exp.append(got)
-        tags.append(("line classification (_custom_iter L137-145)", repr(s)))
+        tags.append(("line classification (_custom_iter L137-145), file stored as " + mode, repr(s)))
 
     # model ----------------------------------------------------------------------------------------------
     out = ctx.model(cmds)
@@ -360,6 +553,7 @@ def run(ctx):
             res.corr_checked += 1
             if m != e:
                 res.corr_disagreements.append((comp, inp[:600], m[:700], e[:700]))
+    directed(ctx, res)
     variant = None
     if dbd_cmds:
         oc = ctx.model([c for c, _, _, _ in dbd_cmds])
@@ -388,7 +582,11 @@ def run(ctx):
         "makes create_db raise EmptyInputError - excluded, C13/C01 territory)",
         "blank lines are empty strings (a line of spaces is neither a comment nor blank in the property text and is "
         "handed to the parser)",
-        "line ends \\n and \\r\\n, last line with or without a newline; a lone \\r is outside the domain",
+        "line ends \\n and \\r\\n (every form, including the gzip path, which gffutils reads in binary mode), last "
+        "line with or without a newline; a lone \\r is outside the domain",
+        "after db.update(): the property speaks of the import; judged is only that the directives of the original "
+        "import are all in db.directives, in order, after reopening - what update does with the ## lines of its own "
+        "input (the real code drops them) is compared with the model only",
         "feature lines are written in one dialect with two attributes each, so that parsing cannot fail",
     ]
     return res
@@ -400,7 +598,7 @@ def replay(ctx, payload):
     lines = inp.get("lines")
     if lines is None:
         if "line" in inp:
-            got = classify_real(ctx, inp["line"], 0)
+            got = classify_real(ctx, inp["line"], 0, inp.get("mode", "path-lf"))
             print("replay: line %r classified as %s (expected %s)" % (inp["line"], got, inp.get("expected")))
             res.evaluations = 1
             if got != inp.get("expected"):
@@ -408,16 +606,28 @@ def replay(ctx, payload):
         return res
     cl = inp.get("checklines", 10)
     form = inp.get("form", "path")
+    if "updates" in inp:
+        crlf, final_nl = bool(inp.get("crlf", False)), bool(inp.get("final_newline", True))
+        obs, _, _, _ = run_history(ctx, lines, cl, inp["updates"], "replay", crlf, final_nl)
+        res.evaluations = 1
+        for what, i in judge_history(lines, cl, inp["updates"], obs, crlf, final_nl):
+            res.oracle_failures.append((what, i))
+        print("replay: %d lines, checklines=%d, %d updates -> db.directives after import %r, after each update + "
+              "reopening %r; directives of the original import %r"
+              % (len(lines), cl, len(inp["updates"]), obs.get("after_import"),
+                 [st.get("reopened") for st in obs["steps"]], hand_classify(lines)[0]))
+        return res
     supplied = None
     if inp.get("dialect_supplied"):
         from gffutils import iterators
         path, _ = write_text(ctx, "c14_rep.gff", lines)
         supplied = iterators.DataIterator(path).dialect
-    obs = observe(ctx, lines, cl, form, supplied, "replay")
+    crlf, final_nl = bool(inp.get("crlf", False)), bool(inp.get("final_newline", True))
+    obs = observe(ctx, lines, cl, form, supplied, "replay", crlf, final_nl)
     res.evaluations = 1
-    for what, i in judge(lines, cl, form, supplied, obs):
+    for what, i in judge(lines, cl, form, supplied, obs, crlf, final_nl):
         res.oracle_failures.append((what, i))
-    print("replay: %d lines, checklines=%d, form=%s -> DataIterator.directives=%r db.directives=%r reopened=%r; "
-          "expected %r" % (len(lines), cl, form, obs.get("it_directives"), obs.get("db_directives"),
-                           obs.get("db_reopened"), hand_classify(lines)[0]))
+    print("replay: %d lines (%s line ends), checklines=%d, form=%s -> DataIterator.directives=%r db.directives=%r "
+          "reopened=%r; expected %r" % (len(lines), "CRLF" if crlf else "LF", cl, form, obs.get("it_directives"),
+                                        obs.get("db_directives"), obs.get("db_reopened"), hand_classify(lines)[0]))
     return res
